@@ -219,10 +219,19 @@ class Autoscaler(AutoscalerBase):
             adder = meta['total_adder']
             scaler = meta['total_scaler']
 
-            lower_data[s] = self._scale_bound(
+            lower_s = self._scale_bound(
                 meta.get('lower', -INF_BOUND), adder, scaler, size, is_lower=True)
-            upper_data[s] = self._scale_bound(
+            upper_s = self._scale_bound(
                 meta.get('upper', INF_BOUND), adder, scaler, size, is_lower=False)
+            if scaler is not None and np.any(np.asarray(scaler) < 0):
+                # a negative scaler reverses the order: the scaled upper bound is the lower
+                # bound in driver units and vice versa
+                neg = np.broadcast_to(np.asarray(scaler) < 0, (size,))
+                lo_sw = np.where(upper_s >= INF_BOUND, -INF_BOUND, upper_s)
+                hi_sw = np.where(lower_s <= -INF_BOUND, INF_BOUND, lower_s)
+                lower_s, upper_s = np.where(neg, lo_sw, lower_s), np.where(neg, hi_sw, upper_s)
+            lower_data[s] = lower_s
+            upper_data[s] = upper_s
 
             if voi_type == 'constraint':
                 eq = meta.get('equals')
